@@ -449,6 +449,9 @@ func writeEvidence(ck *Check, id, tier string, m *Report, unlisted []string, nKn
 	}
 	cov["failing_signatures"] = fails
 	cov["known_findings_listed"] = nKnown
+	if unlisted == nil {
+		unlisted = []string{}
+	}
 	cov["unlisted_signatures"] = unlisted
 	if ck.Level == "model_checking" {
 		for _, k := range []string{"states", "transitions", "traces_validated_against_impl"} {
